@@ -174,6 +174,10 @@ def classify(unit, vxlog, gen_lines, res):
                 m = LABEL_RE.search(t["text"])
                 if m and (s.get("label") or "").startswith("failed this") or (m and s is prim and kind in ("postcondition not satisfied", "invariant not satisfied")):
                     label = m.group(1)
+        if label is None and kind == "assertion failed" and 1 <= line <= len(gen_lines):
+            m = LABEL_RE.search(gen_lines[line - 1])
+            if m and "assert" in gen_lines[line - 1]:
+                label = m.group(1)
         if label is None and kind in ("postcondition not satisfied", "invariant not satisfied", "assertion failed"):
             for s_ in spans:
                 if s_ is prim or (s_.get("label") or "").startswith("failed this"):
@@ -187,6 +191,17 @@ def classify(unit, vxlog, gen_lines, res):
                                 break
                 if label:
                     break
+        if f is None:
+            # a harness composes real functions under contract and asserts a property-level statement over their CONTRACTS
+            # (decode(encode(x)) == x ...): its failing assertion is an obligation like any other
+            hname = None
+            for ln in range(line - 1, 0, -1):
+                m = re.match(r"\s*pub (?:proof )?fn ([A-Za-z0-9_]+)", gen_lines[ln - 1])
+                if m:
+                    hname = m.group(1)
+                    break
+            if hname and hname.startswith("harness_"):
+                f = {"fn": "::" + hname, "file": "(harness in units/" + unit + ".vrs)", "out_start": line, "out_end": line}
         if f is None:
             # failure in hand-written prelude/lemma text: machinery problem, not a finding
             undec.append({"unit": unit, "reason": f"obligation failed outside any function under contract (line {line}): {msg}", "text": text})
